@@ -9,6 +9,7 @@ import vlib, gen_trace
 KINDS = {
     "C01": {"overlap", "content", "usable", "strdup", "crash"},
     "C03": {"align", "usable", "crash-aligned"},
+    "C16": {"goodsize"},
     "C04": {"zero", "rezalloc-zero"},
     "C05": {"realloc-content", "expand", "usable"},
     "C06": {"malformed", "posix", "errno", "fail"},
@@ -31,7 +32,7 @@ def build(res, name="t_api", extra=()):
 def run_one(exe, path, dump=True, timeout=120):
     cmd = [exe, path] + ([] if dump else ["nodump"])
     try:
-        p = subprocess.run(cmd, stdout=subprocess.PIPE, stderr=subprocess.PIPE, timeout=timeout, env=vlib.clean_env(), text=True, errors="replace")
+        p = subprocess.run(cmd, stdout=subprocess.PIPE, stderr=subprocess.PIPE, preexec_fn=vlib._limits, timeout=timeout, env=vlib.clean_env(), text=True, errors="replace")
         return p.returncode, p.stdout, p.stderr[-500:]
     except subprocess.TimeoutExpired:
         return 124, "", "timeout"
